@@ -134,6 +134,15 @@ class Ctx:
         # disequalities over products make nlsat case-split and buy nothing for path enumeration
         self.assumptions.append(d != 0)
 
+    lazy_axioms = False  # True: UF axioms enter obligations / witnesses only, not the branch-feasibility solver (harnesses
+    # whose branch conditions never depend on a transcendental *value*; fewer nonlinear atoms in every fork query)
+
+    def _axiom(self, e):
+        if self.lazy_axioms:
+            self.assumptions.append(e)
+        else:
+            self.assume(e)
+
     def uf(self, name, arg):
         """Application of an uninterpreted transcendental function with its local axioms."""
         arg = z3.simplify(arg)
@@ -143,39 +152,39 @@ class Ctx:
         if not any(a.eq(arg) for a in apps):
             apps.append(arg)
             if name == "exp":
-                self.assume(r > 0)
+                self._axiom(r > 0)
                 if z3.is_rational_value(arg) and arg.numerator_as_long() == 0:
-                    self.assume(r == 1)
+                    self._axiom(r == 1)
                 else:
-                    self.assume((arg == 0) == (r == 1))
+                    self._axiom((arg == 0) == (r == 1))
                 if z3.is_app(arg) and arg.decl().name() == "log" and arg.num_args() == 1:
                     inner = arg.arg(0)
-                    self.assume(z3.Implies(inner > 0, r == inner))
+                    self._axiom(z3.Implies(inner > 0, r == inner))
             elif name == "log":
                 if z3.is_app(arg) and arg.decl().name() == "exp" and arg.num_args() == 1:
-                    self.assume(r == arg.arg(0))
+                    self._axiom(r == arg.arg(0))
                 if z3.is_rational_value(arg) and arg.numerator_as_long() == arg.denominator_as_long():
-                    self.assume(r == 0)
+                    self._axiom(r == 0)
                 else:
-                    self.assume(z3.Implies(arg > 0, (arg == 1) == (r == 0)))
-                    self.assume(z3.Implies(arg > 0, (arg > 1) == (r > 0)))
+                    self._axiom(z3.Implies(arg > 0, (arg == 1) == (r == 0)))
+                    self._axiom(z3.Implies(arg > 0, (arg > 1) == (r > 0)))
             elif name == "sqrt":
                 # the defining axiom only for small arguments: with large polynomial arguments it makes every
                 # later feasibility query a hard NRA problem; large ones are handled by congruence (Atomizer)
                 sx = arg.sexpr()
                 if len(sx) < 120 and "/" not in sx and len(free_vars(arg)) <= 2:
-                    self.assume(z3.Implies(arg >= 0, z3.And(r >= 0, r * r == arg)))
+                    self._axiom(z3.Implies(arg >= 0, z3.And(r >= 0, r * r == arg)))
                 else:
-                    self.assume(r >= 0)
+                    self._axiom(r >= 0)
             elif name in ("sin", "cos"):
                 s, c = uf_decl("sin")(arg), uf_decl("cos")(arg)
-                self.assume(s * s + c * c == 1)
+                self._axiom(s * s + c * c == 1)
                 if z3.is_rational_value(arg) and arg.numerator_as_long() == 0:
-                    self.assume(z3.And(s == 0, c == 1))
+                    self._axiom(z3.And(s == 0, c == 1))
             elif name == "erf":
-                self.assume(z3.And(r > -1, r < 1))
+                self._axiom(z3.And(r > -1, r < 1))
                 if z3.is_rational_value(arg) and arg.numerator_as_long() == 0:
-                    self.assume(r == 0)
+                    self._axiom(r == 0)
         return r
 
     # ------------------------------------------------------------------ forking
